@@ -655,6 +655,14 @@ func (f *Frame) appendOp(args []Val, c *ssa.CallCommon, instr ssa.Value, st *Sta
 func (f *Frame) applyContract(ct *Contract, key string, names []string, sig *types.Signature, args []Val, st *State, reach string, pos token.Pos, rname string) Val {
 	g := f.g
 	ct.used = true
+	if ct.PkgPath != "" {
+		// the caller's proof rests on this contract: it is an obligation of every property the caller serves
+		g.relied[ct.PkgPath+"::"+ct.Key] = true
+		if ct.Refined != "" {
+			g.relied[ct.PkgPath+"::"+ct.Refined] = true
+			g.relied[ct.PkgPath+"::"+ct.Key+"@store"] = true
+		}
+	}
 	if ct.Trusted && ct.Refined != "" {
 		// the table-level contract is what the verified store-level contract of the same function says when the table is
 		// read through the store (lemma ct.Refined, discharged as its own obligations)
